@@ -313,7 +313,29 @@ async fn run_world(w: usize, seed: u64, steps: usize) -> Vec<String> {
     for _ in 0..steps {
         let i = rng.gen_range(0..3);
         let j = (i + rng.gen_range(1..3)) % 3;
-        match rng.gen_range(0..13) {
+        let sel = rng.gen_range(0..13);
+        let adversarial = tk == "tcp" && matches!(sel, 5..=7) && rng.gen_bool(0.4);
+        match sel {
+            _ if adversarial => {
+                // adversarial address of a live node: its port behind the unspecified IP, or port 0 behind its IP.
+                // Whatever the transport makes of it (connects via loopback, fails at once, refuses the address),
+                // the dial must end in an outcome and must not leave the peer stuck (the redial probe at the end
+                // dials the real address)
+                let zero_port = rng.gen_bool(0.5);
+                let base = without_p2p(&nodes[j].addrs[0].0);
+                let a: Multiaddr = base
+                    .iter()
+                    .map(|p| match p {
+                        Protocol::Ip4(_) if !zero_port => Protocol::Ip4(std::net::Ipv4Addr::UNSPECIFIED),
+                        Protocol::Tcp(_) if zero_port => Protocol::Tcp(0),
+                        other => other,
+                    })
+                    .collect();
+                let a = a.with(Protocol::P2p(nodes[j].peer.into()));
+                let an = format!("{}{}", nodes[j].name, if zero_port { "z" } else { "u" });
+                anames.lock().unwrap().insert(a.clone(), an.clone());
+                let _ = nodes[i].tx.send(Cmd::DialAddr(a, an, nodes[j].name.clone())).await;
+            }
             10..=12 => {
                 // busy application: while node i does not poll, a raw inbound connection that fails its
                 // handshake and the outcome of an outbound dial become ready together
